@@ -13,7 +13,7 @@ import (
 	"verif/internal/schema"
 )
 
-var posInErr = regexp.MustCompile(`([A-Za-z0-9_.]+\.yang):(\d+):(\d+)`)
+var posInErr = regexp.MustCompile(`([A-Za-z0-9_.%:/-]*[A-Za-z0-9_.%/-]+\.yang):(\d+):(\d+)`)
 
 func stmtStarts(ss []*rfclex.Stmt, out map[string]string) {
 	for _, s := range ss {
@@ -330,6 +330,20 @@ func Semantic(j *job.Job, s *job.Sink) {
 		}
 		if fault == "" {
 			continue
+		}
+		// One faulty file in five has a name that is more than a bare file name: a path with a
+		// drive letter, a URN, percent signs as URL-encoded names have them. The name is part of
+		// every position and must come out as it went in.
+		if r.Intn(5) == 0 {
+			nn := []string{"C:/models/", "urn:x:", "dir%20x/", "100%", "rev%%20", "a%sb/", "%d-"}[r.Intn(7)] + fn
+			delete(texts, fn)
+			for k := range names {
+				if names[k] == fn {
+					names[k] = nn
+				}
+			}
+			fn = nn
+			s.Count("fault_sets_with_an_unusual_source_name", 1)
 		}
 		texts[fn] = t
 		cs := map[string]any{"fault": fault, "file": fn, "text": t}
